@@ -1,4 +1,5 @@
 import TinsModel.Checksum.Packet
+import TinsModel.Checksum.Crc
 import TinsModel.Gen.TagsC05
 /-
   Code-shaped model of `PDU::serialize` (src/pdu.cpp) and of the `header_size` / `trailer_size` /
@@ -8,7 +9,8 @@ import TinsModel.Gen.TagsC05
     UDP (src/udp.cpp), ICMP (src/icmp.cpp) + ICMPExtensionsStructure (src/icmp_extension.cpp), ICMPv6 (src/icmpv6.cpp,
     the message types without type-specific bodies), RawPDU, PPPoE (src/pppoe.cpp), MPLS (src/mpls.cpp),
     Dot3 (src/dot3.cpp), SNAP (src/snap.cpp), SLL (src/sll.cpp), Loopback (src/loopback.cpp), IPSecAH / IPSecESP
-    (src/ipsec.cpp).
+    (src/ipsec.cpp), LLC (src/llc.cpp, the `LLC(dsap, ssap)` object: information format, two zero control octets),
+    RC4EAPOL (src/eapol.cpp), RadioTap (src/radiotap.cpp, the default-constructed object with or without the FCS flag).
 
   `PDU::serialize(buffer, total_sz)` first serialises the inner PDU at `buffer + header_size()` and then calls
   `write_serialization`, which writes the header (and trailer) around it and computes checksums over the bytes
@@ -43,6 +45,21 @@ def pduToEther (l : Layer) : Nat :=
 def flagToIp (l : Layer) : Nat := (lookupTag TagsC05.flagToIp l.kind).getD 0xff
 
 /-! ### sizes -/
+
+/-- `options_payload_` of the default-constructed `RadioTap` (channel 1 / 0xa0, flags, tsft 0, dbm_signal -50, rx_flags 0,
+    antenna 0 — `RadioTap::RadioTap()`), with `flags(FrameFlags(0))` applied on top when `fcs` is off: the present word
+    (TSFT, FLAGS, CHANNEL, DBM_SIGNAL, ANTENNA, RX_FLAGS), then the fields at their natural alignment -/
+def radiotapPayload (fcs : Bool) : Bytes :=
+  [0x2b, 0x48, 0, 0,  0, 0, 0, 0, 0, 0, 0, 0,  (if fcs then 0x10 else 0), 0,  0x6c, 0x09, 0xa0, 0x00,  0xce, 0,  0, 0]
+
+/-- `RadioTap::trailer_size()`: `skip_to_field(FLAGS)` finds the FLAGS field (present bit 1) after the present word and
+    the 8-octet TSFT (present bit 0); `(flags_value & FCS) != 0` → `sizeof(uint32_t)` -/
+def radiotapTrailer (payload : Bytes) : Nat :=
+  let present := (payload.getD 0 0).toNat
+  if present / 2 % 2 = 1 then
+    let off := if present % 2 = 1 then 4 + 8 else 4
+    if (payload.getD off 0).toNat / 16 % 2 = 1 then 4 else 0
+  else 0
 
 def ipOptSize (opts : List (Nat × Bytes)) : Nat :=        -- IP::calculate_options_size
   -- `!is_single_byte_option`: copied != 0 || op_class != CONTROL || number > NOOP (fix KF-C02-Ip-1: same test as the writer)
@@ -80,7 +97,10 @@ def headerSize : Layer → Nat
   | .sll .. => 16
   | .ah _ _ icv _ => 12 + icv.length
   | .esp .. => 8
-  | _ => 0
+  | .llc .. => 3 + 1                                        -- sizeof(header_) + control_field_length_ (INFORMATION: 2)
+  | .eapol _ key => 5 + 43 + key.length                     -- sizeof(eapol_header) + sizeof(rc4_eapol_header) + key_.size()
+  | .radiotap fcs => 4 + (radiotapPayload fcs).length      -- sizeof(header_) + options_payload_.size()
+  | .opaque .. => 0
 
 /-- `Internals::get_padded_icmp_inner_pdu_size(inner_pdu(), alignment)` -/
 def paddedInner (inner : Option Nat) (align : Nat) : Nat :=
@@ -111,6 +131,7 @@ def trailerSize (l : Layer) (inner : Option Nat) : Nat :=
       extStructSize exts + (match inner with
         | none => 0
         | some sz => (if paddedInner inner 8 > 128 then paddedInner inner 8 else 128) - sz)
+  | .radiotap fcs => radiotapTrailer (radiotapPayload fcs)
   | _ => 0
 
 /-- `PDU::size()` of the stack -/
@@ -135,7 +156,7 @@ def optsModelled : Layer → Bool
   | _ => true
 
 def kindModelled : Layer → Bool
-  | .llc .. | .radiotap .. | .eapol .. | .opaque .. => false
+  | .opaque .. => false
   | _ => true
 
 def parentOf : Layer → Parent
@@ -244,9 +265,10 @@ def write (l : Layer) (rest : List Layer) (inner : Bytes) (parent : Option Layer
       ++ writeExtStruct exts
     icmp6Tail (match parent with | some p => parentOf p | none => .other) (hdr ++ inner ++ tail) totalSz
   | .raw d => d ++ inner
-  | .pppoe code sess plen tags =>
+  | .pppoe code sess _ tags =>
     let tagsSize := headerSize l - 6
-    let plen := if tagsSize > 0 ∨ !rest.isEmpty then totalSz - 6 else plen
+    -- `if (tags_size_ > 0 || inner_pdu()) payload_length(total_sz - sizeof(header_)); else payload_length(0);`
+    let plen := if tagsSize > 0 ∨ !rest.isEmpty then totalSz - 6 else 0
     [0x11, b8 code] ++ w16 sess ++ w16 plen
       ++ tags.foldr (fun (t, d) acc => w16 t ++ w16 d.length ++ d ++ acc) [] ++ inner
   | .mpls label exp bos ttl =>
@@ -277,7 +299,19 @@ def write (l : Layer) (rest : List Layer) (inner : Bytes) (parent : Option Layer
       | some n => if flagToIp n ≠ 0xff then flagToIp n else nh
     [b8 nh, b8 ((12 + icv.length) / 4 - 2), 0, 0] ++ w32 spi ++ w32 seq ++ icv ++ inner
   | .esp spi seq => w32 spi ++ w32 seq ++ inner
-  | _ => inner
+  | .llc dsap ssap => [b8 dsap, b8 ssap] ++ [0, 0] ++ inner          -- header_, control_field.info (zero-initialised)
+  | .eapol keylen key =>
+    -- EAPOL::write_serialization: length(total_sz - 4); version 1, packet type 3 (key), descriptor type RC4 (1);
+    -- RC4EAPOL::write_body: key_length is the size of the key when there is one
+    let kl := if key.isEmpty then keylen else key.length
+    [1, 3] ++ w16 (totalSz - 4) ++ [1] ++ w16 kl ++ zeros 8 ++ zeros 16 ++ [0] ++ zeros 16 ++ key ++ inner
+  | .radiotap fcs =>
+    let payload := radiotapPayload fcs
+    let hs := headerSize l
+    let hdr := [0, 0, b8 hs, b8 (hs / 256)] ++ payload                  -- it_len = host_to_le<uint16_t>(header_size())
+    -- `if (trailer_size() > 0 && inner_pdu())` the CRC-32 of the inner bytes, little-endian; the buffer is zero otherwise
+    if trl > 0 ∧ !rest.isEmpty then hdr ++ inner ++ w32le (crc32 inner).toNat else hdr ++ inner ++ zeros trl
+  | .opaque .. => inner
 
 /-- `PDU::serialize(buffer, total_sz)`: the inner PDU first, then this layer's `write_serialization` -/
 def serialize : List Layer → Option Layer → Bytes
